@@ -225,11 +225,20 @@ def worklist_part(ctx, cases):
                  f"Some sys => (true, map fst sys) | None => (false, []) end).\n")
         body += (f"Eval vm_compute in (match recurrences_fp cm0 {fuel} fp0 T0 {P.mono_coq(m)} with "
                  f"Some sys => universe_closedb (polar_step cm0 fp0 T0) (map fst sys) | None => false end).\n")
+        # the simplest class: every variable of the flat program finitely typed
+        nt = core.numeric_types(flat["types"])
+        size = 1
+        for vs in nt.values():
+            size *= max(1, len(vs))
+        allfin = set(flat["variables"]) <= set(nt) and not symbols and size <= 200
+        if allfin:
+            body += "Eval vm_compute in (universe_closedb (polar_step cm0 fp0 T0) (reduced_universe T0), prod_sizes T0).\n"
         files.append((f"wl_{j}", body))
-        kept.append((text, m, pm, symbols))
+        kept.append((text, m, pm, symbols, allfin))
     outs = lib.coq_run_many(ctx, files, timeout=240)
     agree = 0
-    for (name, _), (text, m, pm, symbols) in zip(files, kept):
+    n_fin = 0
+    for (name, _), (text, m, pm, symbols, allfin) in zip(files, kept):
         ok, o = outs[name]
         ctx.coverage["obligations"] += 1
         mm = re.search(r"=\s*\((true|false),\s*(\[.*?\])\)\s*:\s*bool \* list", o, re.S) if ok else None
@@ -262,7 +271,21 @@ def worklist_part(ctx, cases):
         if closed and closed.group(1) == "true":
             agree += 1
             ctx.coverage["discharged"] += 1
+        if allfin:
+            ctx.coverage["obligations"] += 1
+            fm = re.search(r"=\s*\((true|false),\s*(\d+)(?:%nat)?\)\s*:\s*bool \* nat", o)
+            if fm and fm.group(1) == "true":
+                n_fin += 1
+                ctx.coverage["discharged"] += 1
+                if len(pm) > int(fm.group(2)):
+                    ctx.violation(f"finite-class-bound:{text}:{m}", {"program_text": text, "goal": m, "bound": int(fm.group(2)), "system": len(pm)},
+                                  f"Polar's system for {m} has {len(pm)} monomials, more than the bound prod |T x| = {fm.group(2)}\n{text}", no_input=True)
+            else:
+                ctx.violation(f"finite-class-universe:{text}", {"program_text": text, "log": o[-1500:]},
+                              f"the universe of type-reduced monomials is not closed under get_recurrence (model) for the all-finite flat "
+                              f"program of\n{text}", no_input=True)
     ctx.coverage["worklist_systems_agreeing"] = agree
+    ctx.coverage["finite_class_universes_closed"] = n_fin
 
 
 # ---- main ------------------------------------------------------------------------------------------
@@ -281,7 +304,7 @@ def run(ctx):
     rng = ctx.rng
     timing = {"coq_props": round(ctx.elapsed(), 1)}
     t_ = time.time()
-    n_in = ctx.pick(65, 520)
+    n_in = ctx.pick(70, 560)
     n_out = ctx.pick(14, 120)
     N = 5
     cases = [(p, o, s, "in") for p, o, s in classgen.witnesses()]
@@ -428,10 +451,10 @@ def run(ctx):
                               f"the recurrence system Polar returned for E({gname}) is not closed: {bad}\n{text}")
                 continue
             ctx.coverage["discharged"] += 1
-            if "rec_dict" in gr and "unsupported" not in r["flat"] and len(wl_cases) < ctx.pick(16, 120) and gi < 2 \
+            if "rec_dict" in gr and "unsupported" not in r["flat"] and gi < 2 \
                     and classgen.is_discrete(p) and not r["abstracted"]:
                 try:
-                    wl_cases.append((text, r["flat"], ms[gi], [mono_of_dump(k) for k, _ in gr["rec_dict"]], r["symbols"]))
+                    wl_cases.append((shape, (text, r["flat"], ms[gi], [mono_of_dump(k) for k, _ in gr["rec_dict"]], r["symbols"])))
                 except Exception:
                     pass
             # (b) a result must be right
@@ -469,17 +492,20 @@ def run(ctx):
         graph_part(ctx, ctx.pick(60, 600))
     timing["graphs"] = round(time.time() - t_, 1)
     t_ = time.time()
-    worklist_part(ctx, wl_cases)
+    fin = [c for sh, c in wl_cases if sh == "all-finite"][:ctx.pick(6, 40)]
+    oth = [c for sh, c in wl_cases if sh != "all-finite"]
+    rng.shuffle(oth)
+    worklist_part(ctx, fin + oth[:ctx.pick(14, 100)])
     timing["worklist"] = round(time.time() - t_, 1)
     ctx.coverage["timing_s"] = timing
 
     for st in shape_stat.values():
         st["acceptance_rate"] = round(st["accepted"] / st["programs"], 3) if st["programs"] else None
         st["closed_form_rate"] = round(st["closed_forms"] / st["monomials"], 3) if st["monomials"] else None
-    ctx.coverage["rule"] = ("programs from harness/classgen.py: 6 minimal witnesses + 13 in-class shapes (constants in conditions, nested branches "
+    ctx.coverage["rule"] = ("programs from harness/classgen.py: 6 minimal witnesses + 14 in-class shapes (constants in conditions, nested branches "
                             "reassigning their condition variables, non-integer finite values, goals over loop constants, simultaneous assignment in "
                             "branches, categorical expansion in a branch, multiple assignment of finite variables, guards, linear cycles, acyclic "
-                            "non-linear dependencies, variable location parameters, 3..6-valued finite variables, gen.G programs) + 7 out-of-class shapes; class membership = "
+                            "non-linear dependencies, variable location parameters, 3..6-valued finite variables, all-finite programs, gen.G programs) + 7 out-of-class shapes; class membership = "
                             "InClass.in_class evaluated in the kernel; all monomials of degree <= 2 over the source variables (<= 12 per program); "
                             f"time limit 60 s per program; closed forms vs exact moments under Sem.run for n <= {N}; distinct by (text, options); "
                             "non-trivial = named shape or > 2 monomials; plus random labelled graphs (<= 7 nodes) and Polar-built systems for the worklist model")
